@@ -35,6 +35,8 @@ Checks(e) ==
   IF ~Aligned(e) THEN << <<"all", "the API calls completed without panicking", FALSE>> >>
   ELSE LET r == Res(e) IN
   << Ck("all", "no observer panicked", \A i \in Idx(e) : ~Has(r[i], "panic")),
+     Ck("all", "an encoding that was handed out is not changed by later size queries or encodings (of this or another value)",
+        Has(e.obs, "clobbered") => e.obs.clobbered = <<>>),
      Ck("C01", "header carries version 4 and the type code of the message kind",
         \A i \in TopIdx(e) : GotBytes(e, i) => (Len(r[i].bytes) >= 8 /\ r[i].bytes[1] = 4 /\ r[i].bytes[2] = TypeCode(TreeOf(e, i)))),
      Ck("C01", "header length field = number of bytes produced",
